@@ -1306,6 +1306,7 @@ INTERNAL_DECL(struct cache *, cache_alloc, (unsigned n, size_t size));
 INTERNAL_DECL(void, set_cache_entry_cleanup,
 	      (struct cache *, cache_entry_cleanup_fn *, void *));
 INTERNAL_DECL(void, cache_free, (struct cache *));
+INTERNAL_DECL(void, cache_release, (struct cache *));
 INTERNAL_DECL(void, cache_flush, (struct cache *));
 INTERNAL_DECL(struct cache_entry *, cache_get_entry,
 	      (struct cache *, cache_key_t));
